@@ -150,7 +150,17 @@ func oneRetry(line string) string {
 			defer cancel()
 			ctx = c
 		}
-		req, _ := http.NewRequestWithContext(ctx, "GET", "http://example.invalid/x", nil)
+		// neither is the request's body: none, replayable (GetBody set by net/http), or a stream that cannot be replayed
+		var req *http.Request
+		switch ctxMode {
+		case 1:
+			req, _ = http.NewRequestWithContext(ctx, "POST", "http://example.invalid/x", strings.NewReader(`{"a":1}`))
+		case 2:
+			req, _ = http.NewRequestWithContext(ctx, "PUT", "http://example.invalid/x", io.NopCloser(strings.NewReader(`{"a":2}`)))
+			req.GetBody = nil
+		default:
+			req, _ = http.NewRequestWithContext(ctx, "GET", "http://example.invalid/x", nil)
+		}
 		resp, err := rt.RoundTrip(req)
 		rs, es := "nil", "nil"
 		if resp != nil {
